@@ -333,6 +333,14 @@ pub struct Finding {
 /// The documented order (lib/src/server/services/message_handler.rs:93-97)
 pub const DOC_ORDER: [&str; 3] = ["server::ServerState", "server::Session", "server::AddressSpace"];
 
+/// The order used to say WHICH edge of an already detected cycle is the out-of-line one (it never decides
+/// whether there is a cycle). It is the documented order with the per-connection SessionManager in front:
+/// every site that takes the SessionManager together with ServerState, Session or AddressSpace takes it first
+/// (message_handler.rs:124,533,573; comms/tcp_transport.rs:139,458; services/session.rs:343,376; metrics.rs:147),
+/// the built-in method handlers reached from services/method.rs being the one exception (finding F1).
+/// No acquisition count enters the decision: counts depend on the mix of requests a run happened to send.
+pub const REF_ORDER: [&str; 4] = ["server::SessionManager", "server::ServerState", "server::Session", "server::AddressSpace"];
+
 /// Decide everything the property asks about the graph. Only classes that are not client-only are judged.
 pub fn judge(g: &Graph) -> Vec<Finding> {
     let mut out = vec![];
@@ -395,17 +403,15 @@ pub fn judge(g: &Graph) -> Vec<Finding> {
                     violation: false,
                 });
             } else if all_can_block {
-                // the rarely seen edge(s) of the cycle are the ones out of line: name where their outer lock is taken
-                let counts: Vec<u64> = (0..n).map(|i| g.edges[&(cyc[i].clone(), cyc[(i + 1) % n].clone())].count).collect();
-                let min = counts.iter().cloned().min().unwrap_or(0);
+                // name where the outer lock of the out-of-line edge(s) is taken: the edges against REF_ORDER; where
+                // REF_ORDER is silent about one of the two classes every edge of the cycle is named
                 for i in 0..n {
                     let (a, b) = (&cyc[i], &cyc[(i + 1) % n]);
-                    let pa = DOC_ORDER.iter().position(|c| c == a);
-                    let pb = DOC_ORDER.iter().position(|c| c == b);
+                    let pa = REF_ORDER.iter().position(|c| c == a);
+                    let pb = REF_ORDER.iter().position(|c| c == b);
                     let out_of_line = match (pa, pb) {
-                        // where the documentation gives the order, it says which edge is the wrong one
                         (Some(x), Some(y)) => x > y,
-                        _ => counts[i] <= min.saturating_mul(4),
+                        _ => true,
                     };
                     if out_of_line {
                         inversions.insert((a.clone(), b.clone()));
@@ -443,8 +449,9 @@ pub fn judge(g: &Graph) -> Vec<Finding> {
             out.push(Finding {
                 signature: format!("inversion|{}>{}|held@{}", a, b, file),
                 detail: format!(
-                    "{} is held while {} is taken, against the prevailing order (the opposite order is the common one); \
-                     acquisition site pairs with the outer lock taken in {}: {}",
+                    "{} is held while {} is taken, closing a lock-order cycle (against the order SessionManager, ServerState, \
+                     Session, AddressSpace where that order covers both classes); acquisition site pairs with the outer \
+                     lock taken in {}: {}",
                     a,
                     b,
                     file,
@@ -535,4 +542,87 @@ pub fn judge(g: &Graph) -> Vec<Finding> {
         }
     }
     out
+}
+
+#[cfg(test)]
+mod tests {
+    use super::*;
+
+    const SM: &str = "server::SessionManager";
+    const SS: &str = "server::ServerState";
+    const S: &str = "server::Session";
+    const AS: &str = "server::AddressSpace";
+
+    fn edge(count: u64, from: &str, to: &str, kinds: (u8, u8)) -> Edge {
+        let site = |s: &str| {
+            let mut it = s.rsplitn(2, ':');
+            let line: u32 = it.next().unwrap().parse().unwrap();
+            (format!("/repo/lib/src/{}", it.next().unwrap()), line)
+        };
+        Edge {
+            count,
+            from_site: site(from),
+            to_site: site(to),
+            kinds: [kinds].into_iter().collect(),
+            same_instance: 0,
+            other_instance: 0,
+            pairs: [(from.to_string(), to.to_string())].into_iter().collect(),
+        }
+    }
+
+    /// An order graph shaped like finding F1
+    fn f1(n_create_session: u64, n_method: u64) -> Graph {
+        let mut g = Graph::default();
+        let mut add = |a: &str, b: &str, e: Edge| g.merge_edge((a.to_string(), b.to_string()), e);
+        add(SM, SS, edge(n_create_session, "server/services/message_handler.rs:124", "server/session.rs:248", (2, 2)));
+        add(SM, S, edge(9000, "server/comms/tcp_transport.rs:458", "server/comms/tcp_transport.rs:461", (2, 2)));
+        add(SM, AS, edge(4000, "server/comms/tcp_transport.rs:458", "server/comms/tcp_transport.rs:462", (2, 2)));
+        add(SS, S, edge(5000, "server/services/message_handler.rs:99", "server/services/attribute.rs:40", (2, 2)));
+        add(SS, AS, edge(5000, "server/services/message_handler.rs:99", "server/services/attribute.rs:41", (2, 2)));
+        add(S, AS, edge(5000, "server/services/attribute.rs:40", "server/services/attribute.rs:41", (2, 2)));
+        add(SS, SM, edge(n_method, "server/services/method.rs:38", "server/address_space/method_impls.rs:95", (1, 1)));
+        add(AS, SM, edge(n_method, "server/services/method.rs:40", "server/address_space/method_impls.rs:95", (2, 1)));
+        add(AS, S, edge(n_method, "server/services/method.rs:40", "server/address_space/method_impls.rs:97", (2, 2)));
+        g
+    }
+
+    fn sigs(g: &Graph) -> Vec<String> {
+        let mut v: Vec<String> = judge(g).into_iter().filter(|f| f.violation).map(|f| f.signature).collect();
+        v.sort();
+        v
+    }
+
+    /// The signatures do not depend on how often an edge was seen, i.e. on the request mix of a run
+    #[test]
+    fn signatures_do_not_depend_on_counts() {
+        let want = sigs(&f1(400, 1));
+        assert_eq!(want.len(), 7, "{:?}", want);
+        assert!(want.iter().all(|s| !s.contains("message_handler.rs") && !s.contains("tcp_transport.rs")), "{:?}", want);
+        for (cs, m) in [(400, 67), (100, 67), (67, 67), (1, 67), (1, 5000)] {
+            assert_eq!(sigs(&f1(cs, m)), want, "counts ({}, {})", cs, m);
+        }
+    }
+
+    #[test]
+    fn new_wrong_order_site_is_new_and_new_right_order_site_is_not() {
+        let want = sigs(&f1(400, 67));
+        let mut g = f1(400, 67);
+        g.merge_edge((SS.into(), SM.into()), edge(1, "server/services/view.rs:50", "server/session.rs:107", (1, 1)));
+        assert!(sigs(&g).contains(&format!("inversion|{}>{}|held@server/services/view.rs", SS, SM)));
+        let mut g = f1(400, 67);
+        g.merge_edge((SM.into(), SS.into()), edge(1, "server/services/session.rs:343", "server/state.rs:100", (2, 2)));
+        assert_eq!(sigs(&g), want);
+    }
+
+    #[test]
+    fn cycle_outside_the_reference_order_names_every_edge() {
+        let d = "server::SessionDiagnostics";
+        let mut g = f1(400, 67);
+        g.merge_edge((AS.into(), d.into()), edge(3, "server/session.rs:78", "server/session.rs:79", (2, 2)));
+        g.merge_edge((d.into(), AS.into()), edge(900, "server/session.rs:553", "server/session.rs:554", (2, 2)));
+        let s = sigs(&g);
+        assert!(s.contains(&format!("cycle|{}>{}>{}", AS, d, AS)), "{:?}", s);
+        assert!(s.contains(&format!("inversion|{}>{}|held@server/session.rs", AS, d)));
+        assert!(s.contains(&format!("inversion|{}>{}|held@server/session.rs", d, AS)));
+    }
 }
